@@ -1,6 +1,7 @@
 import MpdProofs.Lemmas.Skeleton
 import MpdProofs.Lemmas.LoopInv
 import MpdProofs.Lemmas.StreamRun
+import MpdProofs.Lemmas.EndToEnd
 /-!
 # C04 — subsystem-change notifications are delivered exactly once and in order
 
@@ -42,6 +43,52 @@ theorem C04_events_from_stream (s0 s : St) (D : Bytes) (h0 : AfterGreeting s0) (
       (∀ q, Decodes .initial (D ++ q) (cs.map (·.2)) (future s q)) ∧ Attr cs (responses s.obs) (eventsOf s.obs) := by
   obtain ⟨cs, h1, h2, _⟩ := (run_decodes s0 s D h0 hr).2
   exact ⟨cs, h1, h2⟩
+
+/-- the events a list of consumed responses produces: the `changed` values of those consumed by the
+idle loop, in order -/
+def idleEvents (cs : List (Consumer × Builder.Response)) : List Bytes :=
+  cs.flatMap fun c => match c.1 with
+    | .idle => eventsOfReply c.2
+    | _ => []
+
+theorem attr_events {cs : List (Consumer × Builder.Response)} {resp : List (Nat × Builder.Response)} {ev : List Bytes}
+    (h : Attr cs resp ev) : ev = idleEvents cs := by
+  induction h with
+  | nil => rfl
+  | reply id r _ ih => simp [idleEvents, List.flatMap_append] at ih ⊢; exact ih
+  | idle r _ ih => simp [idleEvents, List.flatMap_append] at ih ⊢; rw [ih]
+  | verdict r _ ih => simp [idleEvents, List.flatMap_append] at ih ⊢; exact ih
+
+theorem zip_fst_snd {α β} (cs : List (α × β)) : (cs.map (·.1)).zip (cs.map (·.2)) = cs := by
+  induction cs with
+  | nil => rfl
+  | cons c cs ih => simp [ih]
+
+/-- **exactly the changes the server reported, once, in order** (byte level, all runs, in-order
+server): if the peer's stream is the concatenation of the encodings of its well-formed replies
+`srv`, the i-th answering the i-th reply-producing line it received, then the events delivered so
+far are the `changed` values of `view srv[i]` for exactly those `i < n` whose line was an `idle`
+(`n` = number of responses consumed so far), in order — nothing invented, nothing lost, nothing
+twice; whatever the segmentation, the `select!` order, and the moments at which requests arrive. -/
+theorem C04_events_for_in_order_server (s0 s : St) (D : Bytes) (h0 : AfterGreeting s0) (hr : Run s0 s D)
+    (srv : List Spec.AbsResp) (hwf : ∀ r ∈ srv, Spec.WF r = true) (tail : Bytes)
+    (hD : D ++ tail = srv.flatMap Spec.enc) :
+    ∃ n, n ≤ srv.length ∧
+      eventsOf s.obs = idleEvents (((replyWrites s.obs).take n).zip ((srv.map viewResp).take n)) := by
+  obtain ⟨cs, ha, _, ⟨rest, hpre⟩, hlen, hview⟩ := pairing_end_to_end s0 s D h0 hr srv hwf tail hD
+  refine ⟨cs.length, hlen, ?_⟩
+  rw [attr_events ha]
+  congr 1
+  have h1 : (replyWrites s.obs).take cs.length = cs.map (·.1) := by
+    rw [hpre]; exact List.take_left' (by simp)
+  have h2 : (srv.map viewResp).take cs.length = cs.map (·.2) := by
+    apply List.ext_getElem?
+    intro i
+    by_cases hi : i < cs.length
+    · rw [List.getElem?_take_of_lt hi, ← hview i hi]
+    · have hge : cs.length ≤ i := Nat.le_of_not_lt hi
+      rw [List.getElem?_eq_none (by simp; omega), List.getElem?_eq_none (by simp; omega)]
+  rw [h1, h2, zip_fst_snd]
 
 /-- dropping the live receive future because a request arrived changes nothing about what the
 connection will decode, and delivers nothing (this is where the unfixed code lost events) -/
